@@ -11,7 +11,7 @@ def run_main(sb_dir, case, variant, out_mode='abs'):
     base = os.path.join(sb_dir, '+zq9_' + variant + '+'); os.makedirs(base, exist_ok=True)
     inp = case['inputs'][0]; st = case['settings']
     p = os.path.join(base, '+loc+', '+i0+', inp['name'])
-    if inp['kind'] == 'dir': T.materialize(p, inp['children'])
+    if inp['kind'] == 'dir': T.materialize(p, inp['children'], os.path.join(base, '+vendor_q7+'), inp.get('hidden_links', ()))      # links planted like the API run does
     else:
         os.makedirs(os.path.dirname(p), exist_ok=True)
         with open(p, 'wb') as f: f.write(inp['content'].encode('utf-8'))
@@ -24,7 +24,7 @@ def run_main(sb_dir, case, variant, out_mode='abs'):
     # (`cli_cwd`: '.', '..', a sub-directory) -- there the names that bare patterns carry exist as entries of the working directory
     if case.get('cli_cwd') and inp['kind'] == 'dir': work = os.path.normpath(os.path.join(p, case['cli_cwd']))
     sfile = os.path.join(base, 's.yaml')
-    cfgd = {'input': {'auto_exclude_directories_without_cmake': st['auto_exclude']},
+    cfgd = {'input': {'auto_exclude_directories_without_cmake': st['auto_exclude'], 'follow_symlinks': bool(st.get('follow', False))},
             'rst': {'module_path_separator': st.get('sep', '.'), 'file_extensions_in_titles': st.get('ext_titles', False),
                     'file_extensions_in_modules': st.get('ext_modules', False)}}
     if st.get('headers'): cfgd['rst']['headers'] = list(st['headers'])
@@ -224,7 +224,13 @@ def cli_suite(prop, seed, count, out, drv):
         if n >= count:
             gx = random.Random(f"{prop}/cli+/{seed}/{n}"); case['cli_out'] = 'abs'
             if prop == 'C15' and case['inputs'][0]['kind'] == 'dir': names_in_cwd(gx, case, ['.', 'sub', '.', 'sub', '..'][(n - count) % 5])
-            if prop == 'C18': case['output'] = None; case['patterns'] = own_patterns(gx, case['inputs'][0])
+            if prop == 'C18':
+                case['output'] = None; case['patterns'] = own_patterns(gx, case['inputs'][0])
+                i0 = case['inputs'][0]
+                if (n - count) % 2 == 0 and i0['kind'] == 'dir' and not case['settings'].get('follow'):
+                    # ... and a symbolic link to a directory (outside the tree) at the top level: with input.follow_symlinks off it leaves
+                    # no trace -- no page, no toctree entry, and not a word on stdout
+                    i0.setdefault('hidden_links', []).append(dict(rel=[], name='zz_vendor_link', children=[dict(name='v.cmake', content='function(v_f)\nendfunction()\n')]))
         if case['settings'].get('cfg') and case['settings']['cfg'].get('trigger') is not None: case['settings']['cfg'].pop('trigger', None)
         key = (prop, 'cli', seed, n)
         with impl.Sandbox() as sb:
